@@ -415,6 +415,18 @@ func (x *Ctx) mustDeriveOpt(v ssa.Value, pred func(ssa.Value) bool, strict bool)
 				})
 			}
 			return ok && n > 0
+		case *ssa.Alloc:
+			// a variable cell (captured by a closure): everything stored into it
+			sts := eng.StoresTo(y, nil)
+			if len(sts) == 0 {
+				return false
+			}
+			for _, st := range sts {
+				if !walk(st.Val, depth) {
+					return false
+				}
+			}
+			return true
 		case *ssa.UnOp:
 			if y.Op != token.MUL {
 				return false
